@@ -15,6 +15,7 @@ type Clause struct {
 	Kind  string // requires ensures invariant decreases lemma assert
 	Props []string
 	Label string
+	Deps  []string // labels of other invariant clauses this clause's proof uses (hypothesis selection hint)
 	Expr  SpecExpr
 	Src   string
 	File  string
@@ -215,7 +216,12 @@ func (cs *Contracts) ParseContractFile(path, pkgPath string) error {
 			if err != nil {
 				return nil, fail("%v", err)
 			}
-			return &Clause{Kind: kind, Props: props, Label: label, Expr: e, Src: rest, File: path, Line: ll.line}, nil
+			var deps []string
+			if k := strings.Index(label, ":"); k >= 0 {
+				deps = strings.Split(label[k+1:], ",")
+				label = label[:k]
+			}
+			return &Clause{Kind: kind, Props: props, Label: label, Deps: deps, Expr: e, Src: rest, File: path, Line: ll.line}, nil
 		}
 		switch kw {
 		case "func", "trusted":
